@@ -136,26 +136,38 @@ class CaseTimeout(Exception):
     pass
 
 
+_ARMED = [0]
+
+
 def _alarm(signum, frame):
-    raise CaseTimeout()
+    if _ARMED[0]:
+        raise CaseTimeout()
 
 
 def with_timeout(seconds, func, *args):
     """Per-case watchdog.  The budget is CPU time of this process (ITIMER_PROF), not wall
     time, so that a loaded machine cannot turn a fast case into a spurious Timeout; a
     generous wall-clock alarm (20x) backs it up against a case that blocks without
-    consuming CPU."""
+    consuming CPU.  Both timers keep firing (every 0.1 s) after the first expiry: library code
+    that swallows the exception (`except Exception: pass` inside a search loop) is interrupted
+    again instead of running on unwatched.  The handler is disarmed before the timers are
+    cancelled, so a late signal cannot turn a finished case into a timeout."""
     old_p = signal.signal(signal.SIGPROF, _alarm)
     old_a = signal.signal(signal.SIGALRM, _alarm)
-    signal.setitimer(signal.ITIMER_PROF, seconds)
-    signal.setitimer(signal.ITIMER_REAL, 20 * seconds)
+    _ARMED[0] += 1
+    signal.setitimer(signal.ITIMER_PROF, seconds, 0.1)
+    signal.setitimer(signal.ITIMER_REAL, 20 * seconds, 0.1)
     try:
         return func(*args)
     finally:
+        _ARMED[0] -= 1
+        armed = _ARMED[0]
+        _ARMED[0] = 0
         signal.setitimer(signal.ITIMER_PROF, 0)
         signal.setitimer(signal.ITIMER_REAL, 0)
         signal.signal(signal.SIGPROF, old_p)
         signal.signal(signal.SIGALRM, old_a)
+        _ARMED[0] = armed
 
 
 # ------------------------------------------------------------------ Coq side
